@@ -117,8 +117,13 @@ Theorem cpu_in_range_model_if_fixed : cpu_pct = cpu_pct_fixed ->
 Proof. exact cpu_statistics_in_range_if_fixed. Qed.
 
 (* the model (and /repo, by the correspondence) uses the refuted expression today.
-   TO UPDATE when the fix is committed and Stats.cpu_pct switched: this example becomes false; replace it by
-   `cpu_in_range_model := cpu_in_range_model_if_fixed eq_refl`. *)
+   TO UPDATE when the fix is committed and Stats.cpu_pct switched to cpu_pct_fixed: this example (and only
+   this one) stops compiling; replace it by
+     > Theorem cpu_in_range_model :
+     >   forall latest ref, cpu_values_ok false (cpu_statistics latest ref) latest ref = true.
+     > Proof. exact (cpu_in_range_model_if_fixed eq_refl). Qed.
+   (checked on a copy of the tree: everything else compiles unchanged, and the three suites report 0
+   mismatches and an empty F25 class against a /repo copy carrying the fix). *)
 Example model_uses_refuted_expression : model_cpu_leaves_range = true.
 Proof. vm_compute. reflexivity. Qed.
 
